@@ -1,7 +1,9 @@
 (* C07 -- the cache never returns invalidated, expired or superseded data.
    Only property theorems here, each closed by `exact <lemma>`; the proofs are in ProofsInv.v (mirror
-   consistency, refinement of the line-by-line model Defs.v to the abstract LRU cache of Spec.v). *)
-From CppcmsV Require Import Base.Tac C07.Defs C07.Spec C07.Util C07.ProofsInv.
+   consistency, refinement of the line-by-line model Defs.v to the abstract LRU cache of Spec.v), ProofsSpec.v
+   (refinement of the abstract cache to the map specification m_step / m_fetch of Spec.v) and ProofsCor.v (the
+   clauses of the property text over explicit histories). *)
+From CppcmsV Require Import Base.Tac C07.Defs C07.Spec C07.Util C07.ProofsInv C07.MapSpec C07.ProofsSpec C07.ProofsCor C07.Ifc C07.ProofsIfc.
 Local Open Scope N_scope.
 
 (* 1. Mirror consistency (Inv, Spec.v): primary, triggers, timeout and lru describe the same entry set,
@@ -35,3 +37,161 @@ Example inv_nonvacuous :
   let ops := [Store [97] [1] [[120]] 5 None FNone []; Store [98] [2] [[97]] 5 None FNone []; Fetch [98]; Rise [97]; Fetch [98]] in
   map fst (snd (run 0 ops (init 0))) = [ONone; ONone; OHit [2] [[98]; [97]] 5 1; ONone; OMiss].
 Proof. vm_compute. reflexivity. Qed.
+
+(* 3. refines_spec (DESIGN theorem 2): with no limit and no allocator fault, for EVERY operation sequence and clock
+      schedule, every fetch answer equals the answer of the map specification (key -> latest store; rise t deletes every
+      binding whose trigger list, own key included, contains t; remove, clear; hit iff bound and now <= deadline) and the
+      stats after every operation count exactly the bindings of the specification map and their triggers
+      (ans_exact, counts: MapSpec.v; counts_determined shows the numbers are a function of the map). *)
+Theorem refines_spec : forall ops now, Forall op_no_fault ops ->
+  Forall2 ans_exact (snd (run now ops (init 0))) (m_trace now ops m_init).
+Proof. exact run_exact. Qed.
+Print Assumptions refines_spec.
+Theorem counts_determined : forall M st1 st2, counts M st1 -> counts M st2 -> st1 = st2.
+Proof. exact counts_unique. Qed.
+Print Assumptions counts_determined.
+
+(* 4. refines_spec_limited (DESIGN theorem 3, soundness half): for every limit, every memory-pressure pattern and every
+      allocator fault except a store that fails before it touches the cache (FDropBefore: the real store() returns
+      silently and the old entry stays - see docs/C07.md), every fetch answer is a miss or equals the specification
+      answer, and the entries counted by stats are bindings of the specification map: eviction can lose entries,
+      nothing can make the cache return or keep anything but the latest store. *)
+Theorem refines_spec_limited : forall ops now lim, Forall op_no_drop_before ops ->
+  Forall2 ans_sound (snd (run now ops (init lim))) (m_trace now ops m_init).
+Proof. exact run_sound. Qed.
+Print Assumptions refines_spec_limited.
+
+(* 5. the clauses of the property text over explicit histories.  last_out = answer to the final Fetch k;
+      clock now hist = value of the clock after hist; stores_key k o = o is a store under k;
+      invalidates k ts o = o is a store under k, remove k, clear, or rise t with t in ts. *)
+Theorem fetch_hit_is_latest_store : forall lim now pre k v tin d g f nem mid,
+  Forall op_no_drop_before (pre ++ Store k v tin d g f nem :: mid) ->
+  forallb (fun o => negb (stores_key k o)) mid = true ->
+  let r := last_out (snd (run now ((pre ++ Store k v tin d g f nem :: mid) ++ [Fetch k]) (init lim))) in
+  r = OMiss \/ exists g', (forall x, g = Some x -> g' = x) /\ r = OHit v (store_trigs k tin) d g'.
+Proof. exact fetch_hit_is_latest_store_l. Qed.
+Print Assumptions fetch_hit_is_latest_store.
+Theorem fetch_miss_after_invalidation : forall lim now pre k v tin d g f nem mid0 inv mid,
+  Forall op_no_drop_before ((pre ++ Store k v tin d g f nem :: mid0) ++ inv :: mid) ->
+  forallb (fun o => negb (stores_key k o)) mid0 = true ->
+  invalidates k (store_trigs k tin) inv = true -> stores_key k inv = false ->
+  forallb (fun o => negb (stores_key k o)) mid = true ->
+  last_out (snd (run now (((pre ++ Store k v tin d g f nem :: mid0) ++ inv :: mid) ++ [Fetch k]) (init lim))) = OMiss.
+Proof. exact fetch_miss_after_invalidation_l. Qed.
+Print Assumptions fetch_miss_after_invalidation.
+Theorem fetch_miss_after_remove_or_clear : forall lim now pre k inv mid,
+  Forall op_no_drop_before (pre ++ inv :: mid) ->
+  invalidates_any k inv = true ->
+  forallb (fun o => negb (stores_key k o)) mid = true ->
+  last_out (snd (run now ((pre ++ inv :: mid) ++ [Fetch k]) (init lim))) = OMiss.
+Proof. exact fetch_miss_after_remove_or_clear_l. Qed.
+Print Assumptions fetch_miss_after_remove_or_clear.
+Theorem fetch_miss_after_deadline : forall lim now pre k v tin d g f nem mid,
+  Forall op_no_drop_before (pre ++ Store k v tin d g f nem :: mid) ->
+  forallb (fun o => negb (stores_key k o)) mid = true ->
+  (d < clock now (pre ++ Store k v tin d g f nem :: mid))%Z ->
+  last_out (snd (run now ((pre ++ Store k v tin d g f nem :: mid) ++ [Fetch k]) (init lim))) = OMiss.
+Proof. exact fetch_miss_after_deadline_l. Qed.
+Print Assumptions fetch_miss_after_deadline.
+Theorem fetch_miss_never_stored : forall lim now hist k,
+  Forall op_no_drop_before hist -> forallb (fun o => negb (stores_key k o)) hist = true ->
+  last_out (snd (run now (hist ++ [Fetch k]) (init lim))) = OMiss.
+Proof. exact fetch_miss_never_stored_l. Qed.
+Print Assumptions fetch_miss_never_stored.
+Theorem live_entry_found : forall now pre k v tin d g mid,
+  Forall op_no_fault (pre ++ Store k v tin d g FNone [] :: mid) ->
+  forallb (fun o => negb (invalidates k (store_trigs k tin) o)) mid = true ->
+  (clock now (pre ++ Store k v tin d g FNone [] :: mid) <= d)%Z ->
+  exists g', (forall x, g = Some x -> g' = x) /\
+    last_out (snd (run now ((pre ++ Store k v tin d g FNone [] :: mid) ++ [Fetch k]) (init 0))) = OHit v (store_trigs k tin) d g'.
+Proof. exact live_entry_found_l. Qed.
+Print Assumptions live_entry_found.
+
+(* non-vacuity: a history that satisfies the hypotheses of fetch_miss_after_invalidation (rise of a trigger that is the
+   key of another entry), one for live_entry_found with a limit-free cache, and a limited cache where the sound
+   theorem applies but the exact one would not (the entry was evicted: miss although the specification still binds it) *)
+Example spec_nonvacuous :
+  let st := Store [98] [2] [[97]] 9 None FNone [] in
+  let hist := ([Store [97] [1] [] 9 None FNone []] ++ st :: [Tick 3]) ++ Rise [97] :: [Fetch [97]] in
+  Forall op_no_drop_before hist /\ invalidates [98] (store_trigs [98] [[97]]) (Rise [97]) = true /\
+  last_out (snd (run 0 (hist ++ [Fetch [98]]) (init 0))) = OMiss /\
+  last_out (snd (run 0 (([Store [97] [1] [] 9 None FNone []] ++ st :: [Tick 9]) ++ [Fetch [98]]) (init 0))) = OHit [2] [[98]; [97]] 9 1 /\
+  last_out (snd (run 0 (([Store [97] [1] [] 9 None FNone []] ++ st :: [Tick 10]) ++ [Fetch [98]]) (init 0))) = OMiss /\
+  last_out (snd (run 0 (([Store [97] [1] [] 9 None FNone []] ++ st :: [Tick 9]) ++ [Fetch [97]]) (init 1))) = OMiss /\
+  m_fetch 9 [97] (fst (snd (m_run 0 ([Store [97] [1] [] 9 None FNone []] ++ st :: [Tick 9]) m_init))) = OHit [1] [[97]] 9 0.
+Proof. vm_compute. repeat split; try reflexivity. repeat constructor. Qed.
+
+(* 6. interface_triggers (DESIGN theorem 4): cache_interface and triggers_recorder (model: Ifc.v).
+      i_added now o st = the names handed to add_trigger while o runs (store: its triggers and its key unless notriggers;
+      fetch hit: the trigger set of the fetched entry - inheritance - unless notriggers; add_trigger; store_page: the page key);
+      i_log = all of them over a history, latest first.
+   a. every interface operation is exactly one operation of the cache back end (i_base_op), so clock, cache state and stats
+      of an interface history are those of the projected base history and theorems 1-5 apply to it;
+   b. a recorder returns exactly the names added between its attach and its detach, however recorders are nested inside;
+   c. the page trigger set holds every name added since the last reset;
+   d. a page stored by store_page is gone (fetch_page misses) after raising any name recorded while it was built, any name
+      that was already in the page set, or the page key - in particular a trigger inherited from a cached frame it fetched;
+   e. the same for a frame stored through the interface and its own triggers. *)
+Theorem interface_runs_are_cache_runs : forall ops now st,
+  fst (fst (i_run now ops st)) = fst (fst (run now (i_project now ops st) (i_cache st))) /\
+  i_cache (snd (fst (i_run now ops st))) = snd (fst (run now (i_project now ops st) (i_cache st))) /\
+  map snd (snd (i_run now ops st)) = map snd (snd (run now (i_project now ops st) (i_cache st))).
+Proof. exact i_run_project. Qed.
+Print Assumptions interface_runs_are_cache_runs.
+Theorem recorder_collects : forall now st ops,
+  depth_ok 0 ops -> depth_after 0 ops = O ->
+  let st1 := snd (fst (i_step now IAttach st)) in
+  let r := i_run now ops st1 in
+  snd (i_step (fst (fst r)) IDetach (snd (fst r))) = IRec (i_log now ops st1).
+Proof. exact recorder_collects_l. Qed.
+Print Assumptions recorder_collects.
+Theorem page_collects : forall ops now st, forallb (fun o => negb (is_reset o)) ops = true ->
+  i_page (snd (fst (i_run now ops st))) = i_log now ops st ++ i_page st.
+Proof. exact page_collects_l. Qed.
+Print Assumptions page_collects.
+Theorem page_invalidated_by_recorded_trigger : forall now st ops k data secs t gz,
+  Inv (i_cache st) -> forallb (fun o => negb (is_reset o)) ops = true ->
+  let r := i_run now ops st in
+  let now1 := fst (fst r) in
+  In t (k :: i_log now ops st ++ i_page st) ->
+  let st2 := snd (fst (i_step now1 (IStorePage k data secs) (snd (fst r)))) in
+  let st3 := snd (fst (i_step now1 (IRise t) st2)) in
+  gz = i_gz (snd (fst r)) ->
+  snd (i_step now1 (IFetchPage k gz) st3) = IMiss.
+Proof. exact page_invalidated_by_recorded_trigger_l. Qed.
+Print Assumptions page_invalidated_by_recorded_trigger.
+Theorem frame_invalidated_by_trigger : forall now st k v trigs secs notr t notr2,
+  Inv (i_cache st) -> In t (k :: trigs) ->
+  let st2 := snd (fst (i_step now (IStore k v trigs secs notr) st)) in
+  let st3 := snd (fst (i_step now (IRise t) st2)) in
+  snd (i_step now (IFetch k notr2) st3) = IMiss.
+Proof. exact frame_invalidated_by_trigger_l. Qed.
+Print Assumptions frame_invalidated_by_trigger.
+
+(* non-vacuity: a frame f with trigger t is cached; building a page: an outer recorder is attached, the frame is fetched
+   (inheriting f and t), an inner recorder sees only the explicit trigger u; the page p is stored and found; raising the
+   inherited trigger t makes fetch_page miss *)
+Example interface_nonvacuous :
+  let f := [102] in let t := [116] in let u := [117] in let p := [112] in
+  let build := [IAttach; IFetch f false; IAttach; IAdd u; IDetach; IDetach] in
+  let ops := [IStore f [1] [t] 10 true] ++ build ++ [IStorePage p [7] 10; IFetchPage p false; IRise t; IFetchPage p false; IFetch f false] in
+  map fst (snd (i_run 0 ops (i_init 0))) =
+    [INone; INone; IHit [1]; INone; INone; IRec [u]; IRec [u; t; f]; INone; IHit [7]; INone; IMiss; IMiss] /\
+  depth_ok 0 [IFetch f false; IAttach; IAdd u; IDetach] /\
+  i_page (snd (fst (i_run 0 ([IStore f [1] [t] 10 true] ++ build) (i_init 0)))) = [u; t; f].
+Proof. vm_compute. repeat split. Qed.
+
+(* 7. the excluded case is a real counterexample, not a proof artefact: when the copy of the new value fails (FDropBefore:
+      std::bad_alloc in the first try block of mem_cache::store, reachable with the process_shared back end for a value that
+      does not fit into the shared segment) store() returns without deleting the old entry, and the next fetch returns the
+      SUPERSEDED value.  Replayed on the implementation (known finding stale-after-failed-store, docs/C07.md). *)
+Theorem fetch_hit_is_latest_store_without_hypothesis_refuted :
+  exists lim now pre k v tin d g nem mid,
+    forallb (fun o => negb (stores_key k o)) mid = true /\
+    let r := last_out (snd (run now ((pre ++ Store k v tin d g FDropBefore nem :: mid) ++ [Fetch k]) (init lim))) in
+    ~ (r = OMiss \/ exists g', (forall x, g = Some x -> g' = x) /\ r = OHit v (store_trigs k tin) d g').
+Proof.
+  exists 0, 0%Z, [Store [97] [1] [] 9%Z None FNone []], [97], [2], [], 9%Z, None, [], [].
+  split; [reflexivity|]. vm_compute. intros [H|(g' & _ & H)]; discriminate.
+Qed.
+Print Assumptions fetch_hit_is_latest_store_without_hypothesis_refuted.
